@@ -26,7 +26,9 @@ PROVED
          equal arity, every item of the first branch with a source and the first branch's names pairwise different): the
          first branch by its own names, the others BY POSITION onto them (`ColumnsExact.specPairsUnion`).  And
          `select_moves_no_column_partial`: the holder of a plain SELECT over base tables is exactly the reads of its FROM
-         clause.
+         clause.  And up to `get_column_lineage()` (`column_paths_exact_flat_partial` / `_collist_` / `_setop_`): when the
+         written table is not read, `Paths.columnLineage` of the statement holder is exactly the list of two‑node paths
+         `[source, target]` of the specified pairs.
 
 NOT PROVED (kept as a comment at the end): `pairs_exact` for all of `Frag02` — see the list there.  What ties the rest to the
 code is the SQL‑level correspondence of `harness/c02.py`.
@@ -487,6 +489,50 @@ theorem edges_exact_setop_partial (env : Env) (silent : Bool) (s : Stmt) (g : LG
     · exact ((hx.hasColumn u v).mpr (Or.inr h1)).1
     · exact ((hx.hasAlias u v).mpr h1).1
 
+/-! #### from the edges to `get_column_lineage()`
+
+`Paths.columnLineage` is the model of `get_column_lineage()` (C06: `column_lineage_exact` — the simple paths of the column graph
+from roots to leaves).  On the fragments above, when the statement does not read the table it writes, no target column is a
+source column, so the reported paths are exactly the two‑node paths `[source, target]` of the specified pairs: the
+`pairs` of the property text = the specification. -/
+
+theorem column_paths_exact_flat_partial (env : Env) (silent : Bool) (s : Stmt) (g : LGraph) (hp : env.prov.truthy = false)
+    (hs : fragStmt env s = true) (h : analyze env silent s = .ok g)
+    (hnr : ∀ o ∈ fromTabs env (stmtFrom s), o.d ≠ (mkTable env (stmtTarget s) none).d) (p : List Node) :
+    p ∈ Paths.columnLineage g ↔
+      ∃ u v, (u, v) ∈ specPairs env (stmtTarget s) (stmtItems s) (stmtFrom s) ∧ p = [u, v] := by
+  obtain ⟨g', hg', hx⟩ := analyze_exact env silent s hp hs
+  rw [h] at hg'
+  cases hg'
+  exact columnLineage_of_exact hx _ (mkTable_isTable env _ none)
+    (specPairs_bipartite env _ _ _ hnr (fragStmt_items env s hs hnr)) (by intro q hq; cases hq) p
+
+theorem column_paths_exact_collist_partial (env : Env) (silent : Bool) (s : Stmt) (g : LGraph) (hp : env.prov.truthy = false)
+    (hs : fragStmtCols env s = true) (h : analyze env silent s = .ok g) (p : List Node) :
+    p ∈ Paths.columnLineage g ↔
+      ∃ u v, (u, v) ∈ specPairsPos env (stmtTarget s) (stmtCols s) (stmtItems s) (stmtFrom s) ∧ p = [u, v] := by
+  obtain ⟨g', hg', hx⟩ := analyze_exact_cols env silent s hp hs
+  rw [h] at hg'
+  cases hg'
+  obtain ⟨hself, hits⟩ := fragStmtCols_items env s hs
+  refine columnLineage_of_exact hx _ (mkTable_isTable env _ none)
+    (specPairsPos_bipartite env _ _ _ _ hself hits) ?_ p
+  intro q hq
+  unfold listedOwners at hq
+  obtain ⟨c, _, rfl⟩ := List.mem_map.mp hq
+  rfl
+
+theorem column_paths_exact_setop_partial (env : Env) (silent : Bool) (s : Stmt) (g : LGraph) (hp : env.prov.truthy = false)
+    (hs : fragStmtSetop env s = true) (h : analyze env silent s = .ok g) (p : List Node) :
+    p ∈ Paths.columnLineage g ↔
+      ∃ u v, (u, v) ∈ specPairsUnion env (stmtTarget s) (stmtParts s) ∧ p = [u, v] := by
+  obtain ⟨g', hg', hx⟩ := analyze_exact_setop env silent s hp hs
+  rw [h] at hg'
+  cases hg'
+  obtain ⟨hself, hits⟩ := fragStmtSetop_items env s hs
+  exact columnLineage_of_exact hx _ (mkTable_isTable env _ none)
+    (specPairsUnion_bipartite env _ _ hself hits) (by intro q hq; cases hq) p
+
 /-! #### reading the specification (all by `ColumnsExact`): keys of target and source columns, what a qualifier denotes -/
 
 /-- target column key: `<written table>.<item name>` owned by the written table -/
@@ -767,6 +813,13 @@ theorem dev_D6_end_to_end :
        (.col "<default>.u.q" (some (.table "<default>" "u")), .col "<default>.t.b" (some (.table "<default>" "t")))] := by
   decide +kernel
 
+/-- the model's `get_column_lineage()` evaluated on `exInsert`: the three predicted two‑node paths -/
+example : Paths.columnLineage (match analyze {} false exInsert with | .ok g => g | .error _ => Graph.empty) =
+    [[.col "s1.t1.a" (some (.table "s1" "t1")), .col "<default>.tgt.a" (some (.table "<default>" "tgt"))],
+     [.col "s1.t1.b" (some (.table "s1" "t1")), .col "<default>.tgt.f" (some (.table "<default>" "tgt"))],
+     [.col "s1.t1.c" (some (.table "s1" "t1")), .col "<default>.tgt.coalesce(x.c, 2)" (some (.table "<default>" "tgt"))]] := by
+  decide +kernel
+
 /-- the theorem instantiated: whatever graph the analysis of `exInsert` returns, its LINEAGE edges are these three pairs -/
 example (g : LGraph) (h : analyze {} false exInsert = .ok g) (u v : Node) :
     ((u, v) ∈ g.edges ∧ g.ety u v = some .lineage) ↔
@@ -801,9 +854,9 @@ end endToEnd
     * nested queries (derived tables, CTEs, subqueries in expressions): the same invariant through the 30‑function mutual
       recursion of `Model/Walk.lean`, with sub‑holders composed by `composeSub`; a select‑item subquery is not modelled at
       all (`_get_column_from_subquery`);
-    * the step from the statement holder to `Runner.eval` / `Paths.columnLineage` (C06 `column_lineage_exact` gives paths =
-      simple paths of the LINEAGE subgraph; on the fragment every such path is a single edge because no source column
-      belongs to the written table);
+    * the step from the statement holder to `Runner.eval` (the assembler over a one‑statement script); the step to
+      `Paths.columnLineage` IS proved on the fragments (`column_paths_exact_*_partial`) for statements that do not read the
+      table they write;
     * `Spec.colflow` (`Spec/Columns.lean`) is an executable oracle returning `none` outside its shapes; `specPairs` is not
       proved equal to it (both are evaluated by the differential on every generated case).
 -/
